@@ -140,6 +140,14 @@ def run(ctx: Ctx) -> None:
     ctx.check(ex.attrs.get("line") == lc("x")[0], "Q3", "expression keeps position", lt("expression"), "", "")
 
     # ---- Q6 line accounting of the lexer ---------------------------------------------------------------
+    # ---- Q7 ------------------------------------------------------------------------------------------
+    ctx.rule("Q7", "the text reaches the lexer with the line structure it was given: the include pre-pass (run by default on every load) cuts and re-joins the text with the same separator, so no line break is added or removed before positions are counted", 1)
+    from .c15 import split_join_pairing
+
+    li = repo.func("parser.Parser.load_includes")
+    _, sep7, ok7, why7, where7 = split_join_pairing(li)
+    ctx.check(ok7, "Q7", "load_includes: split / join", repo.loc("parser", where7), f"separator {sep7!r}", why7 + " - every line and column recorded after such a character is off")
+
     ctx.rule("Q6", "every terminal that can match a line break is one lark counts line breaks in (its pattern text shows a newline to lark), so tokens after it keep exact line numbers", 10)
     import re as _re
 
